@@ -311,6 +311,7 @@ Proof.
       * discriminate E.
       * destruct h0 as [|[l w] h0']; discriminate E.
       * destruct h0 as [|[l w] h0']; discriminate E.
+      * discriminate E.
 Qed.
 Print Assumptions mrun_reacquire_means.
 
@@ -332,6 +333,7 @@ Proof.
         exists [], KSend, r, ((l, w) :: h0'). simpl. rewrite N.eqb_refl. auto.
       * destruct h0 as [|[l' w] h0']; [discriminate E|]. injection E as -> ->.
         exists [], KRecv, r, ((l, w) :: h0'). simpl. rewrite N.eqb_refl. auto.
+      * discriminate E.
 Qed.
 Print Assumptions mrun_block_means.
 
